@@ -338,8 +338,45 @@ class World:
         s = self.run_ser(dict(c, kind="ser", san0=False, fuel=-1))
         out = {"ser": s, "de": None}
         if not s["ctor_exc"] and not s["exc"]:
-            out["de"] = self.run_de({"prog": c["prog"], "data": s["bytes"], "ch0": False})
+            cls = self.top_class(c["prog"])
+            r = self.reader_mod.EoReader(bytes(s["bytes"]))
+            d = {"exc": "", "obj": NONE, "pos": None, "remaining": None, "nested_size_mismatch": []}
+            try:
+                o = cls.deserialize(r)
+                d["obj"] = self.project(o)
+                d["nested_size_mismatch"] = self.nested_sizes(o)
+            except Exception as e:
+                d["exc"] = self.exc_name(e)
+                d["exc_msg"] = str(e)[:100]
+            d["pos"] = r.position
+            d["remaining"] = r.remaining
+            out["de"] = d
         return out
+
+    def nested_sizes(self, o):
+        """byte_size of every nested generated object vs the number of bytes that object serializes to on its own."""
+        bad = []
+
+        def visit(x):
+            if x is None or isinstance(x, (int, str, bytes, bytearray, bool)):
+                return
+            if isinstance(x, (tuple, list)):
+                for y in x:
+                    visit(y)
+                return
+            if hasattr(type(x), "serialize") and hasattr(x, "byte_size"):
+                w = self.writer_mod.EoWriter()
+                try:
+                    type(x).serialize(w, x)
+                    if len(w) != x.byte_size:
+                        bad.append([type(x).__qualname__, x.byte_size, len(w)])
+                except Exception as e:
+                    bad.append([type(x).__qualname__, x.byte_size, "EXC " + type(e).__name__])
+                for name in dir(type(x)):
+                    if isinstance(getattr(type(x), name, None), property) and name != "byte_size":
+                        visit(getattr(x, name))
+        visit(o)
+        return bad
 
     def run_mut(self, c):
         """C19: history of attempted mutations; after every action the instance is projected and serialized."""
@@ -422,10 +459,19 @@ def main():
         res["import_error"] = traceback.format_exc()[-1500:]
         json.dump(res, open(outp, "w"))
         return
+    import signal
+
+    def on_alarm(signum, frame):
+        raise TimeoutError("case did not terminate within 10 s")
+    signal.signal(signal.SIGALRM, on_alarm)
     for c in job["cases"]:
         try:
             fn = {"ser": world.run_ser, "de": world.run_de, "rt": world.run_rt, "mut": world.run_mut}[c["kind"]]
-            res["results"].append(fn(c))
+            signal.alarm(10)
+            try:
+                res["results"].append(fn(c))
+            finally:
+                signal.alarm(0)
         except Exception:
             res["results"].append({"harness_error": traceback.format_exc()[-800:]})
     json.dump(res, open(outp, "w"))
